@@ -8,6 +8,7 @@ one.  Histories are forced with scripted criteria (accept / reject / alternate /
 reject runs / random) and vetoing geometric checks (always / first k / random) across all
 five Monte Carlo ensembles, all moves and their + / * compositions, label arrays with
 spectators, gaps and descending order, rich per-atom arrays and constraints.
+Pre-selected insertions also use a particle with another number of atoms than the template.
 """
 from __future__ import annotations
 
